@@ -60,7 +60,7 @@ PROFILES = {
                 configs="all", boom=(1, 3), overlap=True, l2=(1, 2),
                 l2_reps=2),
     "C09": dict(nreq=(1, 1), mutation=(1, 1), force_mutation=True,
-                variants=False, reps=2, configs="all", boom=(0, 1)),
+                variants=False, reps=2, configs="all", boom=(1, 6)),
     "C04": dict(nreq=(2, 6), mutation=(1, 3), variants=False, reps=1,
                 configs="one", boom=(0, 1), activities=True, overlap=True),
     "C10": dict(nreq=(1, 2), mutation=(1, 4), variants=True, reps=1,
@@ -68,7 +68,7 @@ PROFILES = {
                 corruption=True, shared_errors=True, badenum=True),
     "C16": dict(nreq=(1, 2), mutation=(1, 3), variants=True, reps=1,
                 configs="all", boom=(1, 8), stacks=True, overlap=True,
-                l2=(1, 2), badenum=True),
+                l2=(1, 2), badenum=True, repeats=True),
 }
 
 
@@ -102,7 +102,8 @@ class Request:
     __slots__ = ("op", "text", "variables", "operation_name", "wseed",
                  "faults", "exp", "variant", "nonfinite", "configs",
                  "ninstr", "mws", "tracer", "skew", "preparsed", "index",
-                 "noloc", "line_shift", "base_text",
+                 "noloc", "line_shift", "base_text", "validators_ok",
+                 "in_except",
                  "gen", "document", "repeat_of", "exp_snapshot", "l2", "root")
 
 
@@ -114,7 +115,8 @@ def _gen_request(draws, spec, bundle, idx, profile, want_mut, tier="quick",
     req.document = None
     req.repeat_of = None
     if prev is not None and prev.variant == "normal" and \
-            (profile.get("activities") or profile.get("corruption")) and \
+            (profile.get("activities") or profile.get("corruption")
+             or profile.get("repeats")) and \
             rs.chance(1, 3, "repeat"):
         # The same document again with other variables (and another world):
         # what a server with a parsed-document cache does all day.
@@ -401,6 +403,13 @@ def _finish_request(draws, spec, req, idx, profile, rs, tier):
                             nonfinite=req.nonfinite), root_value=req.root)
         l2.exp_snapshot = l2.exp
         req.l2 = l2
+    # validators=[default, one that accepts everything]: same outcome, and
+    # the validation stage is still ONE stage
+    req.validators_ok = rs.chance(1, 6, "validators_ok")
+    # the request is issued from inside an ``except`` block of the caller
+    # (cache miss, fallback path): the caller's exception is none of the
+    # library's business
+    req.in_except = rs.chance(1, 5, "in_except")
     req.ninstr = 1
     req.mws = []
     req.tracer = False
@@ -414,7 +423,8 @@ def _finish_request(draws, spec, req, idx, profile, rs, tier):
             req.skew = [(-5.0, 0.0, 3600.0, -0.001)[rs.below(4, "skew_v")]
                         for _ in range(1 + rs.below(4, "skew_n"))]
     if req.l2 is not None:
-        for a in ("ninstr", "mws", "tracer", "skew"):
+        for a in ("ninstr", "mws", "tracer", "skew", "validators_ok",
+                  "in_except"):
             setattr(req.l2, a, getattr(req, a))
     return req
 
@@ -598,6 +608,10 @@ def _reject_policy(schema, document, variables=None):
     """A custom validator (the ``validators=`` argument of the entry points)
     that refuses every document."""
     return [ValidationError("refused by policy", [document.definitions[0]])]
+
+
+def _accept_policy(schema, document, variables=None):
+    return []
 
 
 _EXPECTED_CLASS = {
@@ -793,10 +807,30 @@ def _overlap(res, prop, config, bundle, spec, pair, ost, digest, sample):
             "kind": r.op.kind,
         })
         worlds.append(World(spec, r.wseed, r.faults))
+    shared_instr = ost.chance(1, 3, "shared_instrumentation")
     kernel, outs = run_overlapped(config, bundle, requests, worlds, ost,
-                                  policy={"kind": "random"})
+                                  policy={"kind": "random"},
+                                  shared_instrumentation=shared_instr)
     V = res.violations
     events = kernel.log.events
+    if shared_instr and all(o.status == "ok" for o in outs):
+        # one instrumentation object for all of them: every stage was
+        # entered and left once per request
+        res.count("probe:shared_instrumentation_object")
+        tot = {}
+        for e in events:
+            if e[5] == ("SH", None):
+                tot[e[3]] = tot.get(e[3], 0) + 1
+        for stage in ("query", "parsing", "validation", "execution"):
+            a, b = tot.get(stage + "_start", 0), tot.get(stage + "_end", 0)
+            if a != len(pair) or b != len(pair):
+                V.append(Violation(
+                    ("C16",), "stage_nesting",
+                    ("shared-instrumentation", stage, "count"),
+                    "%d overlapped requests share one instrumentation "
+                    "object: %s_start fired %d times, %s_end %d times" % (
+                        len(pair), stage, a, stage, b)))
+                break
     for rid, (r, out) in enumerate(zip(pair, outs)):
         if out.status == "stepcap":
             raise HarnessError("step cap hit in overlapped run")
@@ -819,7 +853,8 @@ def _overlap(res, prop, config, bundle, spec, pair, ost, digest, sample):
         V.extend(oracles.check_wellformed("execution", config, out.result,
                                           r.text, exp))
         V.extend(oracles.check_hooks(config, "executed", exp, events, ["R0"],
-                                     [], req_id=rid))
+                                     [], req_id=rid,
+                                     skip_stages=shared_instr))
     digest.update(b"overlap")
     digest.update(kernel.log.digest().encode())
     order = tuple((e[5], e[4]) for e in events if e[3] in ("re", "rx"))
@@ -917,9 +952,14 @@ def _execute(config, bundle, spec, req, sched, policy):
         "root": req.root,
         "kind": req.op.kind,
     }
+    request["in_except"] = req.in_except
     if req.variant == "policy":
         from py_gql.validation import default_validator
         request["validators"] = [default_validator, _reject_policy]
+    elif req.validators_ok:
+        from py_gql.validation import default_validator
+        request["validators"] = [_accept_policy, default_validator,
+                                 _accept_policy]
     try:
         out = run_config(
             config, bundle, request, world, sched, policy=policy,
@@ -1048,6 +1088,19 @@ def _evaluate(res, prop, config, req, out, hooks):
                 V.append(Violation(("C08",), "crash_lost",
                                    (config, "other-exception"),
                                    "got %r" % (out.exc,)))
+            if req.op.kind == "mutation":
+                # whatever the outcome: no root resolver runs twice (its side
+                # effect would happen twice)
+                seen_rs = {}
+                for e in events:
+                    if e[3] == "rs" and e[4] and len(e[4]) == 1:
+                        seen_rs[e[4]] = seen_rs.get(e[4], 0) + 1
+                twice = sorted(p for p, n in seen_rs.items() if n > 1)
+                if twice:
+                    V.append(Violation(
+                        ("C09",), "serial_order",
+                        (config, "root-resolver-invoked-twice"),
+                        "root resolver(s) %r ran more than once" % (twice,)))
             hv = oracles.check_hooks(
                 config, "crashed", exp, events, tags, mw_tags, crashed=True)
             if out.status == "ok" and key and \
@@ -1165,7 +1218,7 @@ def _evaluate(res, prop, config, req, out, hooks):
                                      tags, mw_tags))
     else:
         V.extend(oracles.check_hooks(config, got_class, None, events, tags,
-                                     mw_tags))
+                                     mw_tags, preparsed=req.preparsed))
 
 
 def _has_nonfinite(d):
